@@ -973,6 +973,23 @@ def small_notebooks(max_cells=2, alphabet=('a\n', 'b\n', 'c\n')):
         for combo in itertools.product(cells, repeat=n):
             yield {'cells': [copy.deepcopy(c) for c in combo], 'metadata': {}, 'nbformat': 4, 'nbformat_minor': 4}
 
+
+def crafted_mime_pairs():
+    """deterministic notebook pairs that differ inside mime bundles whose keys are not lower case (text, json and
+    binary kinds; outputs and attachments): every branch of add_mime_diff (nested patch / replace) with a key that
+    differs from its lower-cased form"""
+    def nb(cells): return {'cells': cells, 'metadata': {}, 'nbformat': 4, 'nbformat_minor': 4}
+    def code(outs): return {'cell_type': 'code', 'execution_count': 1, 'metadata': {}, 'outputs': outs, 'source': 'x'}
+    def disp(data): return {'output_type': 'display_data', 'data': data, 'metadata': {}}
+    def md(att): return {'cell_type': 'markdown', 'metadata': {}, 'source': '![i](attachment:i.png)', 'attachments': att}
+    out = []
+    for key, va, vb in [('text/HTML', '<b>a</b>\n<i>b</i>\n', '<b>a</b>\n<i>c</i>\n'), ('Text/Plain', 'one\ntwo', 'one\n2'),
+                        ('Application/JSON', {'k': [1, 2]}, {'k': [1, 3]}), ('image/PNG', 'aGVsbG8=', 'd29ybGQ='),
+                        ('IMAGE/svg+xml', '<svg>\n<a/>\n</svg>', '<svg>\n<b/>\n</svg>'), ('text/X-custom', 'p\nq\n', 'p\nr\n')]:
+        out.append((nb([code([disp({'text/plain': 't', key: va})])]), nb([code([disp({'text/plain': 't', key: vb})])])))
+        out.append((nb([md({'i.png': {key: va}})]), nb([md({'i.png': {key: vb}})])))
+    return out
+
 # ---------------------------------------------------------------- validation (only for processes allowed to import nbformat)
 _VALIDATORS = {}
 def validate(nb):
